@@ -86,6 +86,11 @@ func (p *parser) parse() (pq *proto.Query, err error) {
 
 	}
 
+	// the whole input must have been consumed.
+	if p.peek().typ != itemEOF {
+		p.errorf("unexpected %s after end of query", p.next())
+	}
+
 	pq = &proto.Query{
 		Expr:    expr,
 		GroupBy: groupBy,
@@ -459,9 +464,12 @@ func lexValue(l *lexer) stateFn {
 		}
 	}
 
-	if seenFinalQuote || r != eof {
-		l.emit(itemValue)
+	if !seenFinalQuote {
+		return l.errorf("unterminated string")
 	}
+
+	l.emit(itemValue)
+
 	return lexText
 }
 
